@@ -289,3 +289,53 @@ func nonNegByType(v ssa.Value) bool {
 	}
 	return false
 }
+
+// RunBBoxRound: a bounding box in integer font units must enclose the
+// outline, whose coordinates are real numbers: wherever a float is converted
+// to an integer that is stored into LLx/LLy it is rounded down (math.Floor)
+// and into URx/URy rounded up (math.Ceil).  A plain conversion truncates
+// towards zero, which moves a negative lower-left corner inwards.
+func RunBBoxRound(w *World, r *Report, fns []*ssa.Function) {
+	r.Rule("bboxround: every floating-point value converted to an integer and stored into the LLx/LLy field of a rectangle passes through math.Floor, into URx/URy through math.Ceil (outward rounding, so the box encloses the outline also for negative and fractional coordinates)")
+	want := map[string]string{"LLx": "Floor", "LLy": "Floor", "URx": "Ceil", "URy": "Ceil"}
+	for _, fn := range fns {
+		for _, b := range fn.Blocks {
+			for _, in := range b.Instrs {
+				st, ok := in.(*ssa.Store)
+				if !ok {
+					continue
+				}
+				f := fieldName(st.Addr)
+				fnWant, ok := want[f]
+				if !ok {
+					continue
+				}
+				cv, ok := st.Val.(*ssa.Convert)
+				if !ok {
+					continue
+				}
+				bt, ok := cv.X.Type().Underlying().(*types.Basic)
+				if !ok || bt.Info()&types.IsFloat == 0 {
+					continue
+				}
+				key := r.MkKey("bboxround", fnName(fn), "corner "+f)
+				got := ""
+				if c, ok := cv.X.(*ssa.Call); ok {
+					if callee := c.Call.StaticCallee(); callee != nil && fnPkgPath(callee) == "math" {
+						got = callee.Name()
+					}
+				}
+				if got == fnWant {
+					r.OK("bboxround", key, w.Pos(st.Pos()), "rounded outwards with math."+fnWant)
+				} else {
+					how := "converted directly (truncation towards zero)"
+					if got != "" {
+						how = "rounded with math." + got
+					}
+					r.Fail("bboxround", key, w.Pos(st.Pos()), fmt.Sprintf("%s is computed from a floating-point coordinate that is %s instead of math.%s: for a negative or fractional coordinate the corner moves inside the outline, so the box no longer encloses the glyph", f, how, fnWant), nil)
+				}
+			}
+		}
+	}
+	r.Floor("bboxround", 4)
+}
